@@ -686,7 +686,7 @@ def body(ck: common.Check):
     rng = ck.rng
     quick = ck.tier == "quick"
     cases = [("directed", c) for c in directed_cases(rng, quick)]
-    cases += [("alias", c) for c in directed_alias_cases()] + [("alias", gen_alias_case(rng)) for _ in range(60 if quick else 1500)]
+    cases += [("alias", c) for c in directed_alias_cases()] + [("alias", gen_alias_case(rng)) for _ in range(45 if quick else 1500)]
     cases += [("columns", c) for c in directed_perm_cases()]
     a0 = [[1, 0, 2], [0, 3, 0]]
     b0 = {"det": "CCD", "rows": 2, "cols": 3, "h": 10.0, "w": 10.0}
@@ -698,7 +698,7 @@ def body(ck: common.Check):
     cases += [("detector", c) for c in directed_detector_cases()]
     lay = directed_layout_cases()
     cases += [("layout", c) for c in (lay if not quick else [c for k, c in enumerate(lay) if (c["rows"] != 4 and k % 2 == 0) or k % 7 == 0])]
-    for stream, n in (("inside", 130 if quick else 3000), ("outside", 90 if quick else 1800), ("remove", 50 if quick else 800)):
+    for stream, n in (("inside", 105 if quick else 3000), ("outside", 70 if quick else 1800), ("remove", 45 if quick else 800)):
         cases += [(stream, gen_case(rng, stream)) for _ in range(n)]
     answers = LeanDriver("C14").batch([lean_request(c) for _, c in cases])
     for a in answers:
